@@ -45,7 +45,9 @@ def confirm(d):
     wt = tempfile.mkdtemp(prefix="confirm-")
     res = {}
     try:
-        rc, out = sh(f"git -C /repo worktree add --detach -q {wt} HEAD", "/")
+        base = os.environ.get("BASE", "HEAD")
+        res["base"] = subprocess.run(f"git -C /repo rev-parse --short {base}", shell=True, capture_output=True, text=True).stdout.strip()
+        rc, out = sh(f"git -C /repo worktree add --detach -q {wt} {base}", "/")
         if rc:
             res["error"] = out
             return res
